@@ -398,6 +398,7 @@ def check(ctx, rep):
     prog = ctx.prog
     eff = Effects(prog, ctx.resolver)
     rep.rule("R05a", "selector encoder (renderobjinfo) and decoder (handle) of each URL-based protocol use the same codec; one decoding layer; safe chars exclude separators", floor=1)
+    rep.rule("R05i", "neither the connection handler nor a protocol bounds the length of the request line or target (listed links can be long)", floor=4)
     rep.rule("R05h", "= R13e: names taken from file content (HTML titles, mail subjects) are whitespace-collapsed, so the tab-separated menu line keeps its fields", floor=2)
     rep.rule("R05b", "WAP prefix: same configuration value rendered and stripped; Gemini query prefix: same class constant", floor=2)
     rep.rule("R05g", "each URL-based protocol maps a request target to the selector it names (evaluated on 12 targets per protocol)", floor=3)
@@ -595,6 +596,7 @@ def check(ctx, rep):
 
     wap_prefix_boundary(ctx, rep, "R05f")
     request_target_evaluation(ctx, rep, "R05g")
+    request_length_obligations(ctx, rep, "R05i")
     from .c13 import name_sink_obligations
     name_sink_obligations(ctx, rep, "R05h", "text from file content becomes an entry name without whitespace collapsing: a TAB or line break in it shifts "
                           "the fields of the Gopher menu line, so the client follows a selector and host that are not the entry's")
@@ -807,6 +809,67 @@ def rendered_targets(ctx, P, selector, etype):
     if len(outs) != 1:
         return None
     return list(next(iter(outs)))
+
+
+def request_length_obligations(ctx, rep, rule):
+    """Links are as long as the names they point at (three times as long once percent-encoded).  A request that is refused or
+    cut for its length is a listed link that cannot be followed: neither the connection handler nor a protocol's handle()
+    bounds the request line or its target."""
+    prog = ctx.prog
+    rh = ctx.func("server.GopherRequestHandler.handle")
+    funcs = []
+    if rh is not None:
+        funcs.append((rh, rh.cls))
+    for P in ctx.protocol_classes():
+        for nm in ("handle", "__init__"):
+            m = prog.resolve_method(P, nm)
+            if m is not None and (m, P) not in funcs and m not in [f for f, _ in funcs]:
+                funcs.append((m, P))
+    # helpers of those (one level, same package)
+    more = []
+    for f, C in funcs:
+        for n in ast.walk(f.node):
+            if isinstance(n, ast.Call) and isinstance(n.func, ast.Attribute) and dotted(n.func.value) == "self" and C is not None:
+                g = prog.resolve_method(C, n.func.attr)
+                if g is not None and g.module.name.startswith("pygopherd.") and g not in [x for x, _ in funcs + more] \
+                        and g.name not in ("canhandlerequest", "writedir", "renderobjinfo", "filenotfound", "headerslurp"):
+                    more.append((g, C))
+    REQ = ("request", "url", "selector", "path", "line", "target")
+    n_f = 0
+    for f, C in funcs + more:
+        n_f += 1
+        problems = []
+        for n in ast.walk(f.node):
+            # a bounded read of the request line
+            if isinstance(n, ast.Call) and isinstance(n.func, ast.Attribute) and n.func.attr == "readline" and (n.args or n.keywords) \
+                    and "rfile" in norm(n.func.value) and f is rh:
+                problems.append(f"`{norm(n)[:50]}` reads at most a fixed number of bytes: a longer request line is cut, and what is served is the object "
+                                "named by the prefix (or nothing)")
+            if isinstance(n, ast.Compare) and len(n.ops) == 1 and isinstance(n.ops[0], (ast.Gt, ast.GtE, ast.Lt, ast.LtE)):
+                sides = [n.left, n.comparators[0]]
+                for a, b in (sides, sides[::-1]):
+                    lens = [c for c in ast.walk(a) if isinstance(c, ast.Call) and dotted(c.func) == "len" and c.args]
+                    if not lens:
+                        continue
+                    what = norm(lens[0].args[0])
+                    from ..facts import expand_ast as _xa
+
+                    try:
+                        what_x = norm(_xa(lens[0].args[0], f))
+                    except Exception:
+                        what_x = what
+                    bound = isinstance(b, ast.Constant) and isinstance(b.value, int) and b.value >= 64
+                    if not bound and isinstance(b, (ast.Name, ast.Attribute)):
+                        from ..paths import NOCONST, const_value
+
+                        v = const_value(prog, b, f, C)
+                        bound = v is not NOCONST and isinstance(v, int) and v >= 64
+                    if bound and any(k in what.lower() or k in what_x.lower() for k in REQ):
+                        problems.append(f"`{norm(n)[:60]}` bounds the length of the request: a link to a long (or percent-encoded) name that the "
+                                        "server itself lists is refused when it is followed")
+        if problems or f is rh or f.name == "handle":
+            rep.add(rule, f"{f.qualname}: the request is taken whole, whatever its length", not problems, ctx.where(f), "; ".join(problems[:2]),
+                    key=f"{rule}|{f.qualname}")
 
 
 # ---------------------------------------------------------------------------- R05g
